@@ -666,6 +666,11 @@ func (t *ControllableTask) Kill() error {
 		pid          = 0
 		reachedState = "UNKNOWN" // FIXME: should be LAUNCHING or similar
 	)
+	// PGID of the containing shell. We must take it now: the launch goroutine resets t.rpc as soon as the task exits
+	pgid := 0
+	if rpc := t.rpc; rpc != nil && rpc.TaskCmd != nil && rpc.TaskCmd.Process != nil {
+		pgid = rpc.TaskCmd.Process.Pid
+	}
 	cxt, cancel := context.WithTimeout(context.Background(), KILL_TRANSITION_TIMEOUT)
 	defer cancel()
 	response, err := t.rpc.GetState(cxt, &pb.GetStateRequest{}, grpc.EmptyCallOption{})
@@ -780,6 +785,10 @@ func (t *ControllableTask) Kill() error {
 		if pid == 0 {
 			// t.knownPid must be valid because GetState was sure to have been successful in the past
 			pid = t.knownPid
+		}
+		if pid == 0 && pgid != 0 {
+			// The task never reported its PID, so we must rely on the PGID of the containing shell
+			pid = -pgid
 		}
 	} else {
 		// If GetState didn't succeed during this Kill code path, but might still have
